@@ -469,9 +469,25 @@ def check_hash_type(cx, rep):
         if not g:
             rep.bad('SUM-INTO', 'common::tools::hash_type::HashType', name, 'HashType::%s not found' % name, 'src/common/tools/hash_type.rs', 1)
             continue
-        t = es(g[0].block).replace(' ', '')
-        want = {'eq': '{self.0.eq(&other.0)}', 'cmp': '{self.0.cmp(&other.0)}', 'hash': '{Hash::hash(&self.0,state);}'}[name]
-        if t == want:
+        from .helpers import fn_term, P, string_field_of
+        K = string_field_of(cx, g[0])
+        fw_ = cx.fw(g[0])
+        tm_ = cx.gm.terms_of(fw_)
+        pn = [p_[0] for p_ in g[0].params()]
+        good = False
+        if K is not None and name in ('eq', 'cmp'):
+            t = fn_term(cx, g[0])
+            good = t in (('mcall', ('field', P(0), K), name, ('field', P(1), K)), ('call', {'eq': 'PartialEq::eq', 'cmp': 'Ord::cmp'}[name], ('field', P(0), K), ('field', P(1), K)),
+                         ('bin', '==', ('field', P(0), K), ('field', P(1), K)) if name == 'eq' else None)
+        elif K is not None:
+            feeds = [ev for ev in fw_.events if (ev.kind == 'call' and ev.path and ev.path.split('::')[-1] == 'hash') or (ev.kind == 'mcall' and ev.method == 'hash')]
+            if len(feeds) == 1 and not feeds[0].ctx and len(pn) == 2:
+                ev = feeds[0]
+                if ev.kind == 'call':
+                    good = [tm_.term(a, ev.scope) for a in ev.args] == [('field', ('param', pn[0]), K), ('param', pn[1])]
+                else:
+                    good = tm_.term(ev.recv, ev.scope) == ('field', ('param', pn[0]), K) and [tm_.term(a, ev.scope) for a in ev.args] == [('param', pn[1])]
+        if good:
             rep.ok('SUM-INTO', g[0].qname + '|by token string')
         else:
             rep.bad('SUM-INTO', g[0].qname, name, 'HashType::%s is not defined by the token string alone' % name, g[0].file, g[0].line)
